@@ -22,6 +22,13 @@ mv "$demo" /tmp/confirm-$id-demo.go
 [ -d SEED ] && mv SEED .SEED   # its copy of the demo would otherwise be compiled as a package of its own
 goenv go test -vet=off -count=1 -timeout 25m ./... >/tmp/confirm-$id-suite.log 2>&1
 suite_rc=$?
+# the repository's own internal/fuzzwatch tests measure scheduler stalls and fail on a loaded machine: when they are the
+# ONLY failure, repeat that package alone (up to 3 times) before believing it
+if [ $suite_rc -ne 0 ] && ! grep "^FAIL\|^--- FAIL" /tmp/confirm-$id-suite.log | grep -v "fuzzwatch\|^FAIL$\|TestBudgetExpires\|TestReportAtTheInstant" | grep -q .; then
+  for try in 1 2 3; do
+    if goenv go test -vet=off -count=1 ./internal/fuzzwatch/ >/tmp/confirm-$id-fuzzwatch.log 2>&1; then suite_rc=0; echo "(fuzzwatch passed on its own, try $try)" >> /tmp/confirm-$id-suite.log; break; fi
+  done
+fi
 grep -v "^ok\|no test files" /tmp/confirm-$id-suite.log | head -20 | tee -a "$log"
 mv /tmp/confirm-$id-demo.go "$demo"
 [ -d .SEED ] && mv .SEED SEED
